@@ -42,18 +42,18 @@ def cache_jobs():
     common = dict(props=["C15", "C12"], shape="S2", sources=["commons.c", "commons_private.c"], harness="simple_cache.c", entry="h_simple_cache", no_dfcc=True,
                   cbmc_flags=["--no-signed-overflow-check", "--unwind", "3", "--unwinding-assertions"], timeout=600, waive=[r"no body for callee"])
     J.append(Job(name="cache.reim_to_znx64_simple", defines={"WHICH": 0}, expect_statics={"reim_to_znx64_simple": ["p", "prev_log2bound"]},
-                 extra_gi=["--remove-function-body", "reim_to_znx64_ref"], functions=["reim_to_znx64_simple"],
+                 extra_gi=["--remove-function-body", "reim_to_znx64_ref"], functions=["reim_to_znx64_simple"], replay={"driver": "simple_cache", "fn": "reim_to_znx64_simple"},
                  bound_note="loop-free, every argument value, ARBITRARY cache state satisfying the representation invariant (one slot keyed by m, divisor, log2bound); kernel bodies removed", **common))
     for fn, hdr, src, typ, init, ix0, ix, call, var, nslot, bodies in ARRAY_CACHES:
         d = {"WHICH": 1, "HDR": '"%s"' % hdr, "SRCFILE": '"%s"' % src, "T_": typ, "INIT_": init, "INITX0": ix0 or " ", "INITX": ix or " ", "SIMPLE_CALL": call,
              "ALIAS": '"%s::1::%s"' % (fn, var), "NSLOT": nslot}
-        J.append(Job(name="cache." + fn, defines=d, expect_statics={fn: [var]}, extra_gi=[x for b in bodies for x in ("--remove-function-body", b)], functions=[fn],
+        J.append(Job(name="cache." + fn, defines=d, expect_statics={fn: [var]}, extra_gi=[x for b in bodies for x in ("--remove-function-body", b)], functions=[fn], replay={"driver": "simple_cache", "fn": fn},
                      bound_note="loop-free, every m = 2^j (j < %d), ARBITRARY contents of the slot of the call and of one other ghost slot satisfying the invariant "
                                 "'empty or equal to what the real %s builds for 2^slot'; kernel bodies removed" % (nslot, init), **common))
     for fn, hdr, src, typ, ctor, newp, kp, call in POINTER_CACHES:
         d = {"WHICH": 2, "HDR": '"%s"' % hdr, "SRCFILE": '"%s"' % src, "T_": typ, "NEWPARAMS": newp, "KPARAMS": kp, "SIMPLE_CALL": call,
              "ALIAS": '"%s::1::p"' % fn, "NSLOT": 31}
-        J.append(Job(name="cache." + fn, defines=d, expect_statics={fn: ["p"]}, extra_gi=["--replace-calls", "%s:verif_new" % ctor] + [x for b in {"reim/reim_fft_ref.c": ["reim_fft_ref"], "cplx/cplx_fft_ref.c": ["cplx_fft_ref"], "cplx/cplx_ifft_ref.c": ["cplx_ifft_ref"]}[src] for x in ("--remove-function-body", b)], functions=[fn],
+        J.append(Job(name="cache." + fn, defines=d, expect_statics={fn: ["p"]}, extra_gi=["--replace-calls", "%s:verif_new" % ctor] + [x for b in {"reim/reim_fft_ref.c": ["reim_fft_ref"], "cplx/cplx_fft_ref.c": ["cplx_fft_ref"], "cplx/cplx_ifft_ref.c": ["cplx_ifft_ref"]}[src] for x in ("--remove-function-body", b)], functions=[fn], replay={"driver": "simple_cache", "fn": fn},
                      bound_note="loop-free, every m = 2^j (j < 31), ARBITRARY contents of the slot of the call and of one other ghost slot satisfying the invariant "
                                 "'empty or a table of dimension 2^slot'; constructor %s replaced by its assumed contract (fresh table for dimension m)" % ctor, **common))
     return J
